@@ -29,13 +29,15 @@ Theorem C18_terminates : forall b o g, check_cycles o = true -> forall root fuel
 Proof. exact BuilderProofs.machine_terminates. Qed.
 
 (* (a) acyclic graphs (any size, depth, sharing), every builder, every option set: the machine halts with a
-   tree t, to_obj t is the plain value of the graph, copy t = t, no placeholder *)
+   tree t, to_obj t is the plain value of the graph, copy t = t (structurally, and for Python's ==: tree_pyeq),
+   no placeholder *)
 Theorem C18_acyclic_partial : forall b o g,
   hashable_positions g = true -> python_wf g = true -> has_objects g = false ->
   forall d root v, unfold d g root = Some v ->
   exists t n v',
     (forall fuel, (n <= fuel)%nat -> run_builder b o g fuel root = Built t)
-    /\ to_obj t = ROk v' /\ norm v' = v /\ copy t = t /\ has_placeholder t = false.
+    /\ to_obj t = ROk v' /\ norm v' = v /\ copy t = t /\ tree_pyeq (copy t) t = true
+    /\ has_placeholder t = false.
 Proof. exact BuilderProofs.acyclic_faithful. Qed.
 
 (* (b) sharing without cycles: never a cycle error, never a placeholder, whatever the fuel *)
@@ -47,7 +49,7 @@ Theorem C18_shared_partial : forall b o g,
 Proof. exact BuilderProofs.shared_not_cycle. Qed.
 
 (* (c) cycle checking on, a cycle is reachable: cycle error, or (cycles ignored) a tree with a placeholder,
-   which is its own deep copy *)
+   which is its own deep copy (structurally, and for Python's ==) *)
 Theorem C18_cyclic_partial : forall b o g,
   check_cycles o = true ->
   hashable_positions g = true -> python_wf g = true -> has_objects g = false -> closed g = true ->
@@ -55,7 +57,8 @@ Theorem C18_cyclic_partial : forall b o g,
   forall fuel, (fuel_bound b o g root <= fuel)%nat ->
     (ignore_cycles o = false -> run_builder b o g fuel root = Raised ECycle)
     /\ (ignore_cycles o = true ->
-        exists t, run_builder b o g fuel root = Built t /\ has_placeholder t = true /\ copy t = t).
+        exists t, run_builder b o g fuel root = Built t /\ has_placeholder t = true
+                  /\ copy t = t /\ tree_pyeq (copy t) t = true).
 Proof. exact BuilderProofs.cyclic_detected. Qed.
 
 (* an acyclic graph reaches no cycle (the two hypotheses above exclude each other) *)
